@@ -86,6 +86,13 @@ fn phrases(seed: u64) -> (Vec<usize>, Vec<usize>, Vec<usize>) {
 }
 /// a valid 24-word phrase whose first 11 words are those of `a`
 fn extension(seed: u64, a: &[usize]) -> Vec<usize> { let mut c = crate::c01::valid_indices(seed, 24, 902, None); c[..11].copy_from_slice(&a[..11]); let last = bip39::complete_last(&c[..23], c[23]); c[23] = last; c }
+/// phrases whose entropies are related by zero-extension (E, E followed by zero bytes; all-zero entropies of several sizes):
+/// what a key that pads or truncates its argument to a fixed width would confuse
+fn zero_related(seed: u64) -> Vec<(String, String)> {
+    let e = explore::filler_bytes(seed, 0x2E0, 16); let ext = |k: usize| { let mut v = e.clone(); v.extend(std::iter::repeat(0u8).take(k)); v };
+    vec![("E (12 words)".to_string(), bip39::entropy_to_phrase(&e)), ("E followed by 4 zero bytes (15 words)".into(), bip39::entropy_to_phrase(&ext(4))), ("E followed by 16 zero bytes (24 words)".into(), bip39::entropy_to_phrase(&ext(16))),
+        ("all-zero entropy, 12 words".into(), bip39::entropy_to_phrase(&[0u8; 16])), ("all-zero entropy, 18 words".into(), bip39::entropy_to_phrase(&[0u8; 24])), ("all-zero entropy, 24 words".into(), bip39::entropy_to_phrase(&[0u8; 32]))]
+}
 fn text_of(idx: &[usize], sep: &str) -> String { idx.iter().map(|k| bip39::words()[*k]).collect::<Vec<_>>().join(sep) }
 
 pub fn c01_ops(seed: u64) -> Vec<Op> {
@@ -93,12 +100,15 @@ pub fn c01_ops(seed: u64) -> Vec<Op> {
     let mut bad = a.clone(); bad[11] ^= 1; // checksum bit flipped
     let mut long = a.clone(); long.push(a[0]);
     let texts = vec![("A".to_string(), text_of(&a, " ")), ("A with another valid last word".into(), text_of(&a2, " ")), ("B (24 words)".into(), text_of(&b, " ")), ("A with a checksum bit flipped".into(), text_of(&bad, " ")), ("A plus a 13th word".into(), text_of(&long, " ")), ("A double-spaced".into(), text_of(&a, "  ")), ("24 words starting with the first 11 of A".into(), text_of(&extension(seed, &a), " "))];
+    let mut texts = texts; texts.extend(zero_related(seed));
     texts.into_iter().map(|(l, t)| op(format!("parse {l}: '{t}'"), move || crate::c01::verdict(&t))).collect()
 }
 pub fn c02_ops(seed: u64) -> Vec<Op> {
     let (a, a2, b) = phrases(seed);
     let cases: Vec<(&str, String, String)> = vec![("A, no passphrase", text_of(&a, " "), "".into()), ("A, passphrase TREZOR", text_of(&a, " "), "TREZOR".into()), ("A', no passphrase", text_of(&a2, " "), "".into()), ("B, passphrase TREZOR", text_of(&b, " "), "TREZOR".into()),
         ("A, passphrase e-acute precomposed", text_of(&a, " "), "\u{e9}".into()), ("A, passphrase e + combining acute", text_of(&a, " "), "e\u{301}".into()), ("A tab-separated, no passphrase", text_of(&a, "\t"), "".into()), ("24 words starting with the first 11 of A, no passphrase", text_of(&extension(seed, &a), " "), "".into())];
+    let zr = zero_related(seed); let mut cases: Vec<(String, String, String)> = cases.into_iter().map(|(l, t, p)| (l.to_string(), t, p)).collect();
+    for (l, t) in &zr { cases.push((format!("{l}, no passphrase"), t.clone(), "".into())); }
     cases.into_iter().map(|(l, t, p)| { let canon = t.split_whitespace().collect::<Vec<_>>().join(" "); let want = bip39::seed(&canon, &nfkd::nfkd(&p));
         op(format!("seed({l})"), move || match Mnemonic::from_phrase(&t).map(|m| *m.seed(&p)) { Err(e) => Err(format!("valid phrase rejected: {e}")), Ok(s) if s[..] == want[..] => Ok("seed"), Ok(s) => Err(format!("seed {} instead of {}", explore::hex(&s), explore::hex(&want))) }) }).collect()
 }
@@ -153,6 +163,14 @@ pub fn c14_ops() -> Vec<Op> {
     let mut v: Vec<Op> = texts.iter().map(|t| { let t = t.to_string(); let class = grammar::classify_path(&t);
         op(format!("parse and print '{t}'"), move || match (t.parse::<hdk::Path>(), &class) { (Err(_), Class::Accept(_)) => Err("a canonical path is refused".into()), (Err(_), _) => Ok("refused"), (Ok(p), Class::Reject) => Err(format!("accepted as {p}")),
             (Ok(p), Class::Accept(w)) | (Ok(p), Class::Unc(w)) => if p.to_string() == grammar::path_text(w) { Ok("path") } else { Err(format!("printed as {p} instead of {}", grammar::path_text(w))) } }) }).collect();
+    // "the printed form parses to a path deriving the same key": a chain of prefixes of one path (and a sibling), each parsed,
+    // printed, parsed again and derived under one seed - after a deeper, a shallower or a neighbouring path has been derived
+    let curve = Curve::new(); let sd = crate::c03::seeds(0x14)[0].clone();
+    for t in ["m/44'/60'/0'/0/0", "m/44'/60'/0'/0", "m/44'/60'/0'", "m/44'", "m/44'/60'/0'/0/1", "m/44'/60'/0'/0/0/0/0"] { let t = t.to_string();
+        let comps = match grammar::classify_path(&t) { Class::Accept(c) => c, _ => unreachable!() }; let want = bip32::derive(&curve, &sd, &comps).map(|x| x.k.to_be()); let sd = sd.clone();
+        v.push(op(format!("parse, print, parse again and derive '{t}'"), move || { let p = t.parse::<hdk::Path>().map_err(|e| format!("a canonical path is refused: {e}"))?; let printed = p.to_string(); if printed != t { return Err(format!("printed as {printed}")); }
+            let again = printed.parse::<hdk::Path>().map_err(|e| format!("the printed form is refused: {e}"))?; let k1 = hdk::derive(&sd, &p).map(|k| k.secret()).ok(); let k2 = hdk::derive(&sd, &again).map(|k| k.secret()).ok();
+            if k1 != k2 { Err(format!("the path derives {:?}, its printed form re-parsed derives {:?}", k1.map(|x| explore::hex(&x)), k2.map(|x| explore::hex(&x)))) } else if k1 != want { Err(format!("derives {:?}; BIP-32 assigns {:?}", k1.map(|x| explore::hex(&x)), want.map(|x| explore::hex(&x)))) } else { Ok("key") } })); }
     for i in [0u32, 7] { v.push(op(format!("default path for account {i}"), move || match crate::c14::for_index_text(i) { Some(t) if t == format!("m/44'/60'/0'/0/{i}") => Ok("path"), other => Err(format!("{other:?}")) })); }
     v
 }
